@@ -19,7 +19,8 @@ TRUSTED = [
 ASSUMPTIONS = ["callbacks terminate and do not raise", "the callback does not mutate the activated set object itself other than through registration/removal of agents"]
 RULE = ("random histories: 1-2 models, agents held by the program or not, per-agent callback scripts (nothing / remove self / "
         "remove an earlier or later agent / create 0-2 agents in any model / drop a reference), activations do / shuffle_do / map / "
-        "GroupBy.do / GroupBy.map by method name and by callable over model.agents, agents_by_type[T] and program-made sets; "
+        "GroupBy.do / GroupBy.map by method name (plain method, per-instance override, staticmethod, classmethod) and by callable, "
+        "arguments positional / keyword, over model.agents, agents_by_type[T] and program-made sets of truthy and falsy agents; "
         "plus, exhaustively, every single-action script family over n <= 3 agents x every held/unheld pattern (quick: do; "
         "thorough: do, shuffle_do, map, GroupBy.do, and n = 4 for do); "
         "non-trivial = an activation during which an agent was removed or created and at least two callbacks ran")
